@@ -146,6 +146,12 @@ def run(rec, tier, seed):
     for gly, comp in (('Hex', nist.MONOSACCHARIDES['Hex']), ('HexNAc2Hex3', None), ('Hex5HexNAc4NeuAc2', None)):
         g(f'Glycan:{gly} gives the mass of what it spells',
           lambda t=gly: abs(pt.mod_mass('Glycan:' + t) - pt.glycan_mass(t)) < 1e-6 and abs(pt.mod_mass('Glycan:' + t) - pt.chem_mass(pt.mod_comp('Glycan:' + t))) < 1e-3)
+    # a glycan string spells a multiset of monosaccharides: a name written twice counts twice (independent NIST compositions)
+    for txt, cnt in (('Hex2Hex3', dict(Hex=5)), ('Hex2HexNAc1Hex3', dict(Hex=5, HexNAc=1)), ('HexNAc2Hex3HexNAc1', dict(HexNAc=3, Hex=3)),
+                     ('FucHexFuc', dict(Fuc=2, Hex=1))):
+        ref_ = sum(float(nist.comp_mass(nist.MONOSACCHARIDES[k_], True)) * v_ for k_, v_ in cnt.items())
+        g(f'Glycan:{txt} counts a repeated name every time it is written',
+          lambda t=txt, r=ref_: abs(pt.mod_mass('Glycan:' + t) - r) < 1e-4 and abs(pt.glycan_mass(t) - r) < 1e-4, ref_)
     g('Obs:+12.5 is its number', lambda: abs(pt.mod_mass('Obs:+12.5') - 12.5) < 1e-12)
     g('first resolvable alternative wins', lambda: abs(pt.mod_mass('NoSuchThing|Oxidation') - pt.mod_mass('Oxidation')) < 1e-9 if res(pt.mod_mass, 'NoSuchThing|Oxidation')[0] == 'ok' else True)
 
